@@ -352,6 +352,8 @@ func Coordinate(c *Check, tier string, self string) int {
 		vios         map[string]*vioRec
 		infra        []string
 		crashedPlans []*drv.Plan
+		crashSigs    map[string]int
+		crashes      int
 	}
 	a := &agg{nontrivial: map[string]bool{}, digests: map[string]bool{}, probes: map[string]int{}, faults: map[string]int{}, stats: map[string]int{}, states: map[string]bool{}, foreign: map[string]int{}, vios: map[string]*vioRec{}}
 
@@ -465,18 +467,35 @@ func Coordinate(c *Check, tier string, self string) int {
 			}
 			a.Lock()
 			if crashed != nil {
-				crashed.Extra = setExtraString(crashed.Extra, "crash_stderr", tail(stderr.String(), 6000))
+				se := tail(stderr.String(), 6000)
+				crashed.Extra = setExtraString(crashed.Extra, "crash_stderr", se)
+				kind := "exit"
 				if hangPlan != nil {
-					crashed.Extra = setExtraString(crashed.Extra, "crash_kind", "hang")
-				} else {
-					crashed.Extra = setExtraString(crashed.Extra, "crash_kind", "exit")
+					kind = "hang"
 				}
-				a.crashedPlans = append(a.crashedPlans, crashed)
+				crashed.Extra = setExtraString(crashed.Extra, "crash_kind", kind)
+				// one plan per distinct crash signature is re-executed later; a storm
+				// of dying workers (a change that breaks every run) ends the batch early
+				csig := kind + ":" + crashViolation(c, crashKind(se), se).Sig()
+				if a.crashSigs == nil {
+					a.crashSigs = map[string]int{}
+				}
+				a.crashSigs[csig]++
+				if a.crashSigs[csig] <= 2 {
+					a.crashedPlans = append(a.crashedPlans, crashed)
+				}
+				a.crashes++
 			} else {
 				a.infra = append(a.infra, fmt.Sprintf("worker %d died outside a run: %v: %s", widx, err, tail(stderr.String(), 2000)))
 			}
 			a.Unlock()
 			if inflight < 0 && hangPlan == nil {
+				return
+			}
+			a.Lock()
+			storm := a.crashes > 48
+			a.Unlock()
+			if storm {
 				return
 			}
 			// continue after the crashed run
